@@ -60,6 +60,7 @@ type Contract struct {
 	Arch     string
 	File     string
 	Line     int
+	PerReturn bool // check the postconditions at every return point separately
 	Pure     bool // interface method: observer, appends no event
 	Timeout  int  // per-obligation timeout override (seconds)
 	Unroll   map[int]int // loop ordinal -> unrolling bound (complete: an unwinding obligation closes it)
@@ -282,6 +283,8 @@ func (cs *ContractSet) loadFile(path, repo string) error {
 			}
 		case "inline":
 			c.Inline = true
+		case "per-return":
+			c.PerReturn = true
 		case "pure":
 			c.Pure = true
 		case "trusted":
